@@ -3,11 +3,12 @@ import ZvbiModel.Search.Model
 # Instances of the matcher parameter for literal patterns (C17)
 
 `ure.c` is not modelled.  For a literal pattern (what `vbi_search_new (regexp = FALSE)` compiles after
-escaping) the DFA is a chain, and `ure_exec` runs it like this: on a mismatch in a non-accepting state it
-resets to the start state and goes on with the NEXT character (the mismatching character is consumed,
-nothing is re-read) - `quirkLit`.  `exactLit` is what a substring search should do (leftmost occurrence);
-it is the specification the property oracle uses and what ure.c does once `fixes/C17-ure-restart.diff` is
-applied.  The driver picks one of them per `search` op (the check script probes the real code).
+escaping) the DFA is a chain.  `exactLit` is what a substring search should do (leftmost occurrence,
+`LemmasMatcher.exactLit_spec`); it is the specification the property oracle uses, what `ure_exec` does since
+8b7ac93 (after a mismatch it restarts one character after the START of the failed attempt), and the only
+literal matcher the driver uses in the correspondence.  `quirkLit` is what `ure_exec` did before that repair
+(C17-D1: restart after the mismatching character, "ab" not found in "aab"); it is kept as the documented
+old behaviour for `matcher_exact` in Props/C17.lean and is not used by the driver any more.
 -/
 namespace Zvbi.Search
 
